@@ -111,16 +111,20 @@ func VerifC26_optimal2() {
 }
 
 // VerifC26_optimal3: three members (chains of two hops exist), every member subscribed
-// to at least one topic; per partition an owner from {nobody, one member} (thorough:
-// also a conflicting pair).
+// to at least one topic; per partition an owner from {nobody, one member} on (<=2,<=2)
+// partitions (thorough: also nobody/one/conflicting pair on (<=2,<=1)).
 func VerifC26_optimal3() {
-	in := verifShapeSubs(3, 3, []int{2, 2}, false, false, true)
-	in.verifOwnerClaims(verifThorough())
-	in.fixedGens = !verifThorough() // without conflicting claims generations are never compared
-	if verifThorough() {
-		// the cooperative input path also reaches the UserData parser (negative generation)
+	var in *verifGroupIn
+	if verifThorough() && verifPick(2) == 1 {
+		// conflicting claims on a smaller shape, cooperative input (it also reaches the
+		// UserData parser for negative generations)
+		in = verifShapeSubs(3, 3, []int{2, 1}, false, false, true)
+		in.verifOwnerClaims(true)
 		in.verifBalanceOptimal(in.coopMembers(), "sticky cooperative input (3 members)")
 	} else {
+		in = verifShapeSubs(3, 3, []int{2, 2}, false, false, true)
+		in.verifOwnerClaims(false)
+		in.fixedGens = true // without conflicting claims generations are never compared
 		in.verifBalanceOptimal(in.eagerMembers(), "sticky (3 members)")
 	}
 	verifReached("c26-optimal3")
